@@ -37,7 +37,7 @@ func init() {
 		ID:      "R06.6",
 		Title:   "required-field lists never share a backing array",
 		Text:    "Every store to RequiredFields.fields is an append to the receiver's own (fresh) list, a make or a literal — never another list's slice: Add appends in place, so an aliased list lets two records overwrite each other's required fields.",
-		Props:   []string{"C06"},
+		Props:   []string{"C06", "C01"},
 		Modules: []string{"v2"}, // the root module's RequiredFields is an immutable []string
 		Floor:   map[string]int{"v2": 2},
 		Run:     runR066,
